@@ -152,7 +152,7 @@ def patched_tree(patch, meta, tmp, pre_patches=()):
     return None, None, msg
 
 
-def inherited_reports(base_label):
+def inherited_reports(base_label, pid=None):
     """(rule, key) pairs of defects fixed in /repo after the commit a corpus entry is based on."""
     if base_label == 'HEAD':
         return set()
@@ -160,7 +160,13 @@ def inherited_reports(base_label):
         data = json.load(open(os.path.join(VERIF, 'known_findings.json')))
     except (OSError, ValueError):
         return set()
-    return {(f['rule'], f['key']) for f in data.get('fixed_rules', [])}
+    return {(f['rule'], f['key']) for f in data.get('fixed_rules', [])
+            if pid is None or f.get('property') == pid}
+
+
+def stopped_early(out):
+    """The run reported violations but could not finish its other rules."""
+    return 'analysis stopped early' in out
 
 
 def reported(out):
@@ -185,10 +191,11 @@ def eval_one(name, tier='quick'):
             return name, pid, 'PATCH-FAILED', msg
         rc, out = sh([os.path.join(VERIF, 'check'), pid, tier, '--repo', repo, '--out',
                       os.path.join(tmp, 'ev')], cwd=VERIF)
-        inherited = inherited_reports(base)
+        inherited = inherited_reports(base, pid)
         rules = sorted({r for r, k in reported(out) if (r, k) not in inherited})
         if rc == 1 and not rules:
-            rc = 0      # only the defect inherited from the older base was reported
+            # only the defect inherited from the older base was reported
+            rc = 2 if stopped_early(out) else 0
         verdict = {0: 'MISSED', 1: 'CAUGHT', 2: 'ANALYSIS-ERROR'}.get(rc, 'rc=%d' % rc)
         note = ', '.join(rules) if rules else out.strip().splitlines()[-1][:160]
         if base != 'HEAD':
